@@ -52,7 +52,7 @@ Bases == {<<2000, 1, 1, 0, 0, 0>>, <<1999, 12, 31, 23, 59, 59>>, <<2000, 3, 1, 0
           <<2024, 2, 29, 12, 0, 0>>}
 FracBases == {<<2003, 12, 31, 10, 14, 55>>, <<1999, 12, 31, 23, 59, 59>>}
 LexWhole == {Lx("full", b, 0, z) : b \in Bases, z \in ZonesAll}
-LexFrac  == {Lx("full", b, f, z) : b \in FracBases, f \in {1, 3, 4, 6}, z \in ZonesAll}
+LexFrac  == {Lx("full", b, f, z) : b \in FracBases, f \in {1, 3, 4, 6, 7, 9, 12}, z \in ZonesAll}   \* 7: the .NET round-trip format; xsd:dateTime bounds nothing
 LexDate  == {Lx(g, b, 0, NoZone) : g \in {"y", "ym", "ymd"},
              b \in {<<2003, 12, 31, 0, 0, 0>>, <<1, 1, 1, 0, 0, 0>>, <<9999, 12, 31, 0, 0, 0>>, <<2024, 2, 29, 0, 0, 0>>, <<1000, 1, 1, 0, 0, 0>>}}
 LexHm    == {Lx("hm", b, 0, z) : b \in FracBases, z \in {Zulu, Zone("off", 1, 1, 0), Zone("off", Neg1, 8, 0), Zone("off", 1, 14, 0)}}
